@@ -31,28 +31,30 @@ type Input struct {
 	Rows  []Row      `json:"rows"` // live rows; twin of row r has id r.ID+100
 	Atoms []whr.Atom `json:"atoms"`
 	Chain []whr.Call `json:"chain"`
+	// Variant: how the model declares its soft-delete column ("" value field, ptr, embedded, named)
+	Variant string `json:"variant,omitempty"`
 }
 
 type Obs struct {
-	WhereSQL string           `json:"where_sql"`
-	Texts    map[int][]string `json:"texts"`
-	Truth    map[int][]string `json:"truth"`
-	AllIDs   []int64          `json:"all_ids"`
-	Find, Pluck, RowsIDs            []int64
-	Count                           int64
-	First                           *int64
-	Batches                         [][]int64
-	NFind                           []int64
-	NCount                          int64
-	NFirst                          *int64
-	Update, NUpdate, UpdTwins       []int64
-	Del, NDel, DelTwins, DelAgain   []int64
-	UnscopedFind, UnscopedDel       []int64
-	UnscopedSQL                     string
-	Assoc, NAssoc                   [][]int64
-	UAssoc, NUAssoc                 [][]int64
-	NUnscopedFind                   []int64
-	Errs                            []string `json:"errs"`
+	WhereSQL                      string           `json:"where_sql"`
+	Texts                         map[int][]string `json:"texts"`
+	Truth                         map[int][]string `json:"truth"`
+	AllIDs                        []int64          `json:"all_ids"`
+	Find, Pluck, RowsIDs          []int64
+	Count                         int64
+	First                         *int64
+	Batches                       [][]int64
+	NFind                         []int64
+	NCount                        int64
+	NFirst                        *int64
+	Update, NUpdate, UpdTwins     []int64
+	Del, NDel, DelTwins, DelAgain []int64
+	UnscopedFind, UnscopedDel     []int64
+	UnscopedSQL                   string
+	Assoc, NAssoc                 [][]int64
+	UAssoc, NUAssoc               [][]int64
+	NUnscopedFind                 []int64
+	Errs                          []string `json:"errs"`
 }
 
 const liveAtom = 40
@@ -209,14 +211,14 @@ func (e *env) run(in Input) Obs {
 	isLive := func(id int64) bool { return id < 100 }
 
 	reads := func(find *[]int64, count *int64, first **int64, full bool) {
-		var dst []whr.TS
-		fail("find", build(db).Find(&dst).Error)
-		*find = sorted(whr.IDs(&dst))
-		fail("count", build(db).Model(&whr.TS{}).Count(count).Error)
-		var f whr.TS
-		r := build(db).First(&f)
+		dst := whr.NewSoftSlice(in.Variant)
+		fail("find", build(db).Find(dst).Error)
+		*find = sorted(whr.IDsOf(dst))
+		fail("count", build(db).Model(whr.NewSoftOne(in.Variant)).Count(count).Error)
+		f := whr.NewSoftOne(in.Variant)
+		r := build(db).First(f)
 		if r.Error == nil {
-			id := f.ID
+			id := whr.IDOf(f)
 			*first = &id
 		} else if !errors.Is(r.Error, gorm.ErrRecordNotFound) {
 			fail("first", r.Error)
@@ -225,27 +227,27 @@ func (e *env) run(in Input) Obs {
 			return
 		}
 		o.Pluck = []int64{}
-		fail("pluck", build(db).Model(&whr.TS{}).Pluck("id", &o.Pluck).Error)
+		fail("pluck", build(db).Model(whr.NewSoftOne(in.Variant)).Pluck("id", &o.Pluck).Error)
 		o.Pluck = sorted(o.Pluck)
 		o.RowsIDs = []int64{}
-		rows, err := build(db).Model(&whr.TS{}).Rows()
+		rows, err := build(db).Model(whr.NewSoftOne(in.Variant)).Rows()
 		fail("rows", err)
 		if err == nil {
 			for rows.Next() {
-				var x whr.TS
-				fail("scanrows", db.ScanRows(rows, &x))
-				o.RowsIDs = append(o.RowsIDs, x.ID)
+				x := whr.NewSoftOne(in.Variant)
+				fail("scanrows", db.ScanRows(rows, x))
+				o.RowsIDs = append(o.RowsIDs, whr.IDOf(x))
 			}
 			rows.Close()
 		}
 		o.RowsIDs = sorted(o.RowsIDs)
 		o.Batches = [][]int64{}
-		var batch []whr.TS
-		fail("batches", build(db).FindInBatches(&batch, 3, func(tx *gorm.DB, n int) error {
+		batch := whr.NewSoftSlice(in.Variant)
+		fail("batches", build(db).FindInBatches(batch, 3, func(tx *gorm.DB, n int) error {
 			if len(o.Batches) > 2*len(in.Rows)+3 {
 				return fmt.Errorf("runaway: more batches than rows")
 			}
-			o.Batches = append(o.Batches, whr.IDs(&batch))
+			o.Batches = append(o.Batches, whr.IDsOf(batch))
 			return nil
 		}).Error)
 	}
@@ -254,16 +256,16 @@ func (e *env) run(in Input) Obs {
 	reads(&o.Find, &o.Count, &o.First, true)
 	// Unscoped read sees the twins again
 	{
-		var dst []whr.TS
-		fail("unscoped_find", build(db).Unscoped().Find(&dst).Error)
-		o.UnscopedFind = sorted(whr.IDs(&dst))
+		dst := whr.NewSoftSlice(in.Variant)
+		fail("unscoped_find", build(db).Unscoped().Find(dst).Error)
+		o.UnscopedFind = sorted(whr.IDsOf(dst))
 		o.UnscopedSQL, _ = whr.WhereText(db, build(db).Unscoped())
 	}
 	// Update
 	writes := func(twins bool, upd, updTwins, del, delTwins, delAgain *[]int64) {
 		fail("reset", e.reset(in, twins))
 		before := e.dump()
-		fail("update", build(db).Session(&gorm.Session{AllowGlobalUpdate: true}).Model(&whr.TS{}).Update("mark", 1).Error)
+		fail("update", build(db).Session(&gorm.Session{AllowGlobalUpdate: true}).Model(whr.NewSoftOne(in.Variant)).Update("mark", 1).Error)
 		after := e.dump()
 		*upd = changed(before, after, isLive)
 		if updTwins != nil {
@@ -271,14 +273,14 @@ func (e *env) run(in Input) Obs {
 		}
 		fail("reset", e.reset(in, twins))
 		before = e.dump()
-		fail("delete", build(db).Session(&gorm.Session{AllowGlobalUpdate: true}).Delete(&whr.TS{}).Error)
+		fail("delete", build(db).Session(&gorm.Session{AllowGlobalUpdate: true}).Delete(whr.NewSoftOne(in.Variant)).Error)
 		after = e.dump()
 		*del = changed(before, after, isLive)
 		if delTwins != nil {
 			*delTwins = changed(before, after, isTwin)
 		}
 		if delAgain != nil {
-			fail("delete2", build(db).Session(&gorm.Session{AllowGlobalUpdate: true, NowFunc: func() time.Time { return t2.Add(time.Hour) }}).Delete(&whr.TS{}).Error)
+			fail("delete2", build(db).Session(&gorm.Session{AllowGlobalUpdate: true, NowFunc: func() time.Time { return t2.Add(time.Hour) }}).Delete(whr.NewSoftOne(in.Variant)).Error)
 			after2 := e.dump()
 			*delAgain = changed(after, after2, func(int64) bool { return true })
 		}
@@ -287,7 +289,7 @@ func (e *env) run(in Input) Obs {
 	// Unscoped delete removes rows physically
 	fail("reset", e.reset(in, true))
 	before := e.dump()
-	fail("unscoped_delete", build(db).Unscoped().Session(&gorm.Session{AllowGlobalUpdate: true}).Delete(&whr.TS{}).Error)
+	fail("unscoped_delete", build(db).Unscoped().Session(&gorm.Session{AllowGlobalUpdate: true}).Delete(whr.NewSoftOne(in.Variant)).Error)
 	after := e.dump()
 	o.UnscopedDel = []int64{}
 	for id := range before {
@@ -307,9 +309,9 @@ func (e *env) run(in Input) Obs {
 	}
 	reads(&o.NFind, &o.NCount, &o.NFirst, false)
 	{
-		var dst []whr.TS
-		fail("n_unscoped_find", build(db).Unscoped().Find(&dst).Error)
-		o.NUnscopedFind = sorted(whr.IDs(&dst))
+		dst := whr.NewSoftSlice(in.Variant)
+		fail("n_unscoped_find", build(db).Unscoped().Find(dst).Error)
+		o.NUnscopedFind = sorted(whr.IDsOf(dst))
 	}
 	writes(false, &o.NUpdate, nil, &o.NDel, nil, nil)
 	return o
@@ -463,6 +465,100 @@ func (e *env) assoc(in Input, twins bool) ([][]int64, [][]int64, []string) {
 	for _, o := range owners {
 		uout = append(uout, kidIDs(o.Kids))
 	}
+	// association mode WRITES with Association.Unscoped() (no db.Unscoped()): the related rows are
+	// deleted through their soft-delete model, i.e. marked and never removed; rows already marked
+	// (the twins) stay untouched; the association handle still hides marked rows afterwards
+	kidDump := func() map[int64]string {
+		st := map[int64]string{}
+		rows, err := db.Raw("SELECT id, owner_id, deleted_at FROM kids ORDER BY id").Rows()
+		if err != nil {
+			fail("kid_dump", err)
+			return st
+		}
+		defer rows.Close()
+		for rows.Next() {
+			var id int64
+			var owner *int64
+			var d *string
+			rows.Scan(&id, &owner, &d)
+			ow, ds := "NULL", "NULL"
+			if owner != nil {
+				ow = fmt.Sprint(*owner)
+			}
+			if d != nil {
+				ds = "marked"
+				if id > 100 {
+					ds = *d // a twin's mark must not even be re-stamped
+				}
+			}
+			st[id] = ow + "|" + ds
+		}
+		return st
+	}
+	cmp := func(w string, before, after map[int64]string, touched map[int64]bool) {
+		for id, v := range before {
+			nv, ok := after[id]
+			switch {
+			case !ok:
+				errs = append(errs, fmt.Sprintf("%s: kid %d physically removed", w, id))
+			case touched[id] && !strings.HasSuffix(nv, "|marked"):
+				errs = append(errs, fmt.Sprintf("%s: kid %d not marked (%s)", w, id, nv))
+			case !touched[id] && nv != v:
+				errs = append(errs, fmt.Sprintf("%s: kid %d changed %s -> %s", w, id, v, nv))
+			}
+		}
+	}
+	{
+		// a fresh handle per write (reading through a handle before writing through it is not part
+		// of this property); the Count AFTER a write goes through the handle that wrote
+		handle := func() *gorm.Association { return db.Model(&Owner{ID: 1}).Association("Kids") }
+		a := handle()
+		live := []int64{}
+		for _, r := range in.Rows {
+			if r.ID%3+1 == 1 {
+				live = append(live, r.ID)
+			}
+		}
+		if n := handle().Count(); n != int64(len(live)) {
+			errs = append(errs, fmt.Sprintf("assoc count before: %d, want %d", n, len(live)))
+		}
+		if len(live) > 0 {
+			before := kidDump()
+			fail("assoc_unscoped_delete", a.Unscoped().Delete(&Kid{ID: live[0]}))
+			cmp("assoc_unscoped_delete", before, kidDump(), map[int64]bool{live[0]: true})
+			// (a fresh handle: the conditions of an association Delete stay on its handle)
+			if n := handle().Count(); n != int64(len(live)-1) {
+				errs = append(errs, fmt.Sprintf("assoc count after unscoped delete: %d, want %d", n, len(live)-1))
+			}
+			live = live[1:]
+		}
+		before := kidDump()
+		a = handle()
+		fail("assoc_unscoped_clear", a.Unscoped().Clear())
+		t := map[int64]bool{}
+		for _, id := range live {
+			t[id] = true
+		}
+		cmp("assoc_unscoped_clear", before, kidDump(), t)
+		if n := a.Count(); n != 0 {
+			errs = append(errs, fmt.Sprintf("assoc count after unscoped clear: %d, want 0", n))
+		}
+		// Replace on the next owner
+		o2 := Owner{ID: 2}
+		t = map[int64]bool{}
+		for _, r := range in.Rows {
+			if r.ID%3+1 == 2 {
+				t[r.ID] = true
+			}
+		}
+		before = kidDump()
+		fail("assoc_unscoped_replace", db.Model(&o2).Association("Kids").Unscoped().Replace(&Kid{ID: 90, Age: 1}))
+		after := kidDump()
+		cmp("assoc_unscoped_replace", before, after, t)
+		if after[90] != "2|NULL" {
+			errs = append(errs, fmt.Sprintf("assoc_unscoped_replace: new kid is %q", after[90]))
+		}
+	}
 	return out, uout, errs
 }
 
@@ -509,6 +605,7 @@ func main() {
 		out.Add(lib.Case{Term: term(in, o), JSON: map[string]interface{}{"input": in, "observed": o},
 			Kind: kind, Shape: whr.Shape(in.Chain), Nontriv: nontriv})
 		out.Count("chain_len", fmt.Sprint(len(in.Chain)))
+		out.Count("soft_delete_declaration", "value"+in.Variant)
 		lead := "none"
 		if len(in.Chain) > 0 {
 			lead = in.Chain[0].Kind
@@ -547,8 +644,17 @@ func main() {
 	{
 		in0 := Input{Atoms: whr.GenAtoms(r, names, nicks)}
 		g := whr.NewGen(r, in0.Atoms)
-		for _, ch := range g.PatternChains(true) {
+		for i, ch := range g.PatternChains(true) {
 			add("pattern", Input{Rows: genRows(r), Atoms: in0.Atoms, Chain: ch})
+			if i < 6 {
+				// the first patterns (no condition, one condition) also on every other declaration
+				for _, v := range []string{"ptr", "embedded", "named"} {
+					add("pattern", Input{Rows: genRows(r), Atoms: in0.Atoms, Chain: ch, Variant: v})
+				}
+			}
+		}
+		for _, v := range []string{"", "ptr", "embedded", "named"} {
+			add("pattern", Input{Rows: genRows(r), Atoms: in0.Atoms, Variant: v})
 		}
 	}
 	budget := 300
@@ -560,6 +666,9 @@ func main() {
 	}
 	for i := 0; i < budget; i++ {
 		in := Input{Rows: genRows(r), Atoms: whr.GenAtoms(r, names, nicks)}
+		if r.Chance(1, 3) {
+			in.Variant = lib.Pick(r, []string{"ptr", "embedded", "named"})
+		}
 		g := whr.NewGen(r, in.Atoms)
 		hostile := r.Chance(1, 2)
 		n := r.Range(0, 4)
@@ -582,6 +691,6 @@ func main() {
 		}
 		add(kind, in)
 	}
-	out.Extra["rule"] = "chains of 0..4 Where/Not/Or calls in any order (leading Or included), units as in C02 (raw with hostile formatting, ? and @named arguments, map, struct, clause expressions, grouped sub-builders, empty forms), on a soft-delete model whose every live row has a soft-deleted twin with identical columns; finishers Find/First/Count/Pluck/Rows/FindInBatches, Update, Delete, repeated Delete, Unscoped Find, Unscoped Delete; each chain is also run on the table with the twins physically removed; distinct = chain shapes; non-trivial = a strict non-empty subset of the live rows is selected"
+	out.Extra["rule"] = "chains of 0..4 Where/Not/Or calls in any order (leading Or included), units as in C02 (raw with hostile formatting, ? and @named arguments, map, struct, clause expressions, grouped sub-builders, empty forms), on a soft-delete model (column declared as value field, pointer field, embedded struct field or renamed field with column tag) whose every live row has a soft-deleted twin with identical columns; finishers Find/First/Count/Pluck/Rows/FindInBatches, Update, Delete, repeated Delete, Unscoped Find, Unscoped Delete; each chain is also run on the table with the twins physically removed; distinct = chain shapes; non-trivial = a strict non-empty subset of the live rows is selected"
 	lib.Must(out.Flush())
 }
